@@ -1,4 +1,6 @@
 """C06 — smoothers keep linear series, commute with offsets and time reversal (metamorphic, all eight variants)."""
+import math
+
 import numpy as np
 
 from vlib import core
@@ -95,7 +97,13 @@ def run(ctx):
         y = np.where(valid > 0, np.array(c["y"]), 0.0)
         if c["kind"] in ("optv", "optvp", "optvplc"):
             llas = c.get("llas") or (grids["hi"] if c.get("lc", 0) > 0.5 else grids["lo"])
-            v, _ = wc.vcurve_float(y, valid, llas, c.get("p"))
+            v, (fits, pens) = wc.vcurve_float(y, valid, llas, c.get("p"))
+            # a fit or a roughness at rounding-noise level (exactly constant / linear valid cells): the exact criterion is
+            # log 0 at every grid value - undefined, every lambda is tied with every other
+            floor_ = math.log(1e-18 * max(1.0, float(np.sum(valid * y * y))))
+            if min(fits) < floor_ or min(pens) < floor_:
+                dist["degenerate_criterion"] = dist.get("degenerate_criterion", 0) + 1
+                return True
         else:
             v = wc.gcv_float(y, valid, c["llas"])
         s = sorted(v)
